@@ -175,6 +175,11 @@ where
     /// sign extension.
     pub fn peek_signed_bits<T: BitReadable>(&mut self, bits_needed: u32) -> Result<T> {
         let val = self.peek_bits(bits_needed)?;
+        if bits_needed == 0 {
+            // A zero-width field has no sign bit.
+            return Ok(val);
+        }
+
         let sign_bit: T = val >> (bits_needed - 1);
 
         if !sign_bit.is_zero() {
